@@ -100,6 +100,12 @@ type eenv struct {
 func (e *eenv) failLater(class, sig, detail string) {
 	e.x.Logf("VIOLATION (reported at the end of the run unless another one comes first) %s %s", class, sig)
 	e.x.Count("deferred."+class+"."+sig, 1)
+	// a listed known finding is counted and never occupies the slot: it must not hide a different
+	// violation later in the same run
+	if _, known := simkit.KnownKeys["C19|"+class+"|"+sig]; known {
+		e.x.FailKnownOrStop("C19", class, sig, detail, e.step)
+		return
+	}
 	if e.later == nil {
 		e.later = &simkit.Violation{Prop: "C19", Class: class, Sig: sig, Detail: detail, Step: e.step}
 	}
@@ -160,7 +166,12 @@ func (w *EncWorld) Run(x *simkit.Ctx) {
 		}
 		return r.Range(4, 9)
 	})
-	txper := x.CfgInt("txper", func(r *simkit.Rng) int { return r.Range(1, 5) })
+	txper := x.CfgInt("txper", func(r *simkit.Rng) int {
+		if r.Chance(1, 3) {
+			return r.Range(6, 12) // larger blocks: Merkle levels with an odd number of nodes above the leaves
+		}
+		return r.Range(1, 5)
+	})
 	cbmode := x.CfgInt("coinbase", func(r *simkit.Rng) int { return r.Pick(1, 2) })
 	magic := x.CfgInt("magic", func(r *simkit.Rng) int { return r.Intn(1000) })
 	relayAll := x.CfgInt("relaytx", func(r *simkit.Rng) int { return r.Pick(1, 2) }) == 1
@@ -997,6 +1008,9 @@ func indexOf(l []string, s string) int {
 	return 0
 }
 
+// dupGroupHits counts root-preserving repetitions of more than one trailing transaction.
+var dupGroupHits int64
+
 func editTxList(txs []*types.Tx, op string, r *simkit.Rng, other *types.Tx) ([]*types.Tx, bool) {
 	n := len(txs)
 	cp := append([]*types.Tx{}, txs...)
@@ -1009,6 +1023,23 @@ func editTxList(txs []*types.Tx, op string, r *simkit.Rng, other *types.Tx) ([]*
 	case "dup-tail":
 		if n == 0 {
 			return nil, false
+		}
+		// The Merkle tree pads an odd level with a copy of its last node, so repeating the trailing
+		// group of 2^k transactions keeps the root whenever the number of such groups is odd
+		// ([a,b,c]+[c]; [t1..t6]+[t5,t6]; ...). Prefer a root-preserving repetition when one exists.
+		var opts [][]*types.Tx
+		for g := 1; g <= n; g *= 2 {
+			cand := append(append([]*types.Tx{}, cp...), cp[n-g:]...)
+			if bytes.Equal(types.CalculateTxsRootHash(cand), types.CalculateTxsRootHash(cp)) {
+				opts = append(opts, cand)
+			}
+		}
+		if len(opts) > 0 {
+			pick := opts[r.Intn(len(opts))]
+			if len(pick)-n > 1 {
+				dupGroupHits++
+			}
+			return pick, true
 		}
 		return append(cp, cp[n-1]), true
 	case "swap":
@@ -1070,7 +1101,11 @@ func (e *eenv) corrupt(b *types.Block, st *simkit.Step, r *simkit.Rng) (*types.B
 		}
 	case strings.HasPrefix(t, "list:"):
 		other := simnode.SignedTx(e.net.Accounts[0], 4242, e.net.Accounts[0].Addr, big.NewInt(1), types.TxType_TRANSFER, nil, []byte("x"), 0)
+		before := dupGroupHits
 		if ed, ok := editTxList(txs, t[5:], r, other); ok {
+			if dupGroupHits > before {
+				e.x.Probe("relay-repeated-trailing-group-same-root")
+			}
 			c.Body.Txs = ed
 			return c, "tx-list"
 		}
